@@ -44,8 +44,17 @@ class Infeasible(SxAbort):
 CTX = None
 
 
+_BV = {}
+
+
 def bv(v):
-    return z3.BitVecVal(v, W)
+    # constants are immutable z3 terms of the global context: build once
+    r = _BV.get(v)
+    if r is None:
+        r = z3.BitVecVal(v, W)
+        if -4096 <= v <= 70000:
+            _BV[v] = r
+    return r
 
 
 class Ctx:
@@ -223,7 +232,11 @@ class Ctx:
                 raise Infeasible()
             m = self.solver.model()     # before add(): add() drops the model
             self.solver.add(cond)
-            self.model = m
+            if len(self.trail) >= len(self.prefix):
+                self.model = m
+            # else: still replaying the parent's decisions; the pending
+            # item's model satisfies the whole prefix *and* cond (the parent
+            # asserted cond before it forked), m only the part replayed so far
             return False
         self.stats['discharged'] += 1
         return True
@@ -359,6 +372,8 @@ class SymInt(object):
         r = lift(o)
         if r is None:
             return NotImplemented
+        if r[1] == 0 and r[2] == 0:
+            return self         # x + 0 (sum() starts every total with 0 + x)
         return mk(self.e + r[0], self.lo + r[1], self.hi + r[2])
     __radd__ = __add__
 
@@ -413,6 +428,15 @@ class SymInt(object):
                 bl = 1
             if bh == 0:
                 bh = -1
+        if bl == bh and bl > 0 and bl & (bl - 1) == 0:
+            # concrete power of two: floor division / modulo of a two's
+            # complement value are an arithmetic shift and a mask (same
+            # values as the general terms below, far cheaper to bit-blast)
+            k = bl.bit_length() - 1
+            q = ae >> bv(k)
+            r = ae & bv(bl - 1)
+            return (q, al >> k, ah >> k), \
+                (r, 0, min(ah, bl - 1) if al >= 0 else bl - 1)
         if al >= 0 and bl > 0:
             q, r = z3.UDiv(ae, be), z3.URem(ae, be)
             return (q, al // bh, ah // bl), (r, 0, min(ah, bh - 1))
